@@ -99,13 +99,22 @@ def norm(msg):
     return msg[:90]
 
 
+TYPE_WORDS = re.compile(r"\\b(int|u8|float|bool|string|void|array|struct|enum|union|function|list_int|list_string|HashMap|unknown|tuple|opaque)\\b")
+
+
 def diag_titles(text):
-    """the diagnostics the type checker printed, in the order of printing, without repetitions: box titles
-    ('-- TYPE MISMATCH ----') and the messages of 'Error at line N, column M: ...' lines (identifiers stripped)"""
-    found = [(m.start(), m.group(1).strip()) for m in TITLE_RE.finditer(text)]
+    """the diagnostics the type checker printed, in the order of printing, without repetitions.  A boxed diagnostic
+    ('-- TYPE MISMATCH ---- file' followed by its message line) is identified by title and message, an 'Error at line N,
+    column M: ...' line by its message; identifiers, numbers and type names are stripped."""
+    found = []
+    for m in TITLE_RE.finditer(text):
+        rest = text[m.end():].split("\n")
+        msg = rest[1].strip() if len(rest) > 1 else ""
+        msg = TYPE_WORDS.sub("T", re.sub(r"\(.*$", "", norm(msg))).strip()
+        found.append((m.start(), "%s: %s" % (m.group(1).strip(), msg[:70])))
     for m in ERRLINE_RE.finditer(text):
-        msg = re.sub(r"\(.*$", "", norm(m.group(1))).strip()
-        found.append((m.start(), "E:" + msg[:60]))
+        msg = TYPE_WORDS.sub("T", re.sub(r"\(.*$", "", norm(m.group(1)))).strip()
+        found.append((m.start(), "E: " + msg[:70]))
     out = []
     for _, t in sorted(found):
         if t not in out:
@@ -162,14 +171,18 @@ class Outcome:
 
     def __init__(self, cls, stage, detail="", titles=(), text=""):
         self.cls, self.stage, self.detail, self.titles, self.text = cls, stage, detail, list(titles), text
-        self.key = None
-        if cls == "stuck":
-            if self.titles:
-                # the checker diagnosed the program and accepted it all the same: the cause is the diagnostic that does not
-                # fail the check (the first one printed); stage and message of the later failure are consequences
-                self.key = "diagnosed-not-rejected|%s" % self.titles[0]
-            else:
-                self.key = "%s|%s|{}" % (stage, detail)
+        self.key = self.make_key(None) if cls == "stuck" else None
+
+    def make_key(self, family):
+        """cause-oriented key of a stuck outcome.  family: the family of the mutation that produced the program (None for a
+        program that is not a mutant)."""
+        if self.titles:
+            # the checker diagnosed the program and accepted it all the same: the cause is the diagnostic that does not
+            # fail the check (the first one printed); stage and message of the later failure are consequences
+            return "diagnosed-not-rejected|%s" % self.titles[0]
+        if family:
+            return "%s|%s|{}|via:%s" % (self.stage, self.detail, family)
+        return "%s|%s|{}" % (self.stage, self.detail)
 
     def label(self):
         return "%s:%s%s" % (self.cls, self.stage, (":" + self.detail) if self.detail and self.cls != "ok" else "")
@@ -1339,38 +1352,46 @@ class M:
 
 
 MUTATORS = [
-    # (method name, weight)
-    ("xfn_local", 10), ("swap_idents", 5), ("swap_idents_same_fn", 4), ("op_swap", 9), ("str_cmp_order", 4), ("cmp_same", 3),
-    ("arith_same", 1), ("strlen_in_cmp", 4), ("cmp_of_cmp", 3), ("neg_wrap", 3), ("not_wrap", 1), ("lit_boundary", 8),
-    ("lit_other_type", 5), ("expr_other_type", 5), ("str_escape", 2), ("stmt_into_block", 6), ("stmt_out_of_block", 6),
-    ("let_moved_down", 3), ("stmt_delete", 3), ("stmt_dup", 3), ("stmt_to_other_fn", 3), ("empty_block", 1), ("drop_return", 2),
-    ("return_mismatch", 2), ("break_outside", 2), ("let_type_change", 4), ("sig_type_change", 4), ("redeclare", 5),
-    ("c_reserved_name", 3), ("fn_renamed_reserved", 2), ("global_init_expr", 3), ("global_shapes", 2), ("arg_count", 6),
-    ("arg_swap", 3), ("call_retarget", 3), ("call_nonfunction", 3), ("void_as_value", 2), ("self_call", 2), ("import_fnvalue", 4),
-    ("nest_fn", 7), ("field_wrong", 3), ("structlit_fields", 2), ("match_arms", 3), ("set_target", 3), ("array_ops", 3),
-    ("print_aggregate", 2), ("cond_shapes", 2), ("for_range", 2), ("shadow_body", 1),
+    # (method name, weight, family).  The family names the kind of source construct a mutation introduces; it is part of
+    # the violation key, so that the same failure message reached through another kind of construct is a different finding.
+    ("xfn_local", 10, "ident"), ("swap_idents", 5, "ident"), ("swap_idents_same_fn", 4, "ident"),
+    ("op_swap", 9, "operator"), ("str_cmp_order", 4, "operator"), ("cmp_same", 3, "operator"), ("arith_same", 1, "operator"),
+    ("strlen_in_cmp", 4, "operator"), ("cmp_of_cmp", 3, "operator"), ("neg_wrap", 3, "operator"), ("not_wrap", 1, "operator"),
+    ("lit_boundary", 8, "literal"), ("str_escape", 2, "literal"),
+    ("lit_other_type", 5, "types"), ("expr_other_type", 5, "types"), ("let_type_change", 4, "types"), ("sig_type_change", 4, "types"),
+    ("stmt_into_block", 6, "stmt-move"), ("stmt_out_of_block", 6, "stmt-move"), ("let_moved_down", 3, "stmt-move"),
+    ("stmt_delete", 3, "stmt-move"), ("stmt_dup", 3, "stmt-move"), ("stmt_to_other_fn", 3, "stmt-move"), ("empty_block", 1, "stmt-move"),
+    ("drop_return", 2, "control"), ("return_mismatch", 2, "control"), ("break_outside", 2, "control"), ("self_call", 2, "control"),
+    ("for_range", 2, "control"), ("cond_shapes", 2, "control"), ("set_target", 3, "control"),
+    ("redeclare", 5, "names"), ("c_reserved_name", 3, "names"), ("fn_renamed_reserved", 2, "names"),
+    ("global_init_expr", 3, "globals"), ("global_shapes", 2, "globals"),
+    ("arg_count", 6, "calls"), ("arg_swap", 3, "calls"), ("call_retarget", 3, "calls"), ("call_nonfunction", 3, "calls"),
+    ("void_as_value", 2, "calls"),
+    ("import_fnvalue", 4, "fnvalue"), ("nest_fn", 7, "fnvalue"),
+    ("field_wrong", 3, "aggregate"), ("structlit_fields", 2, "aggregate"), ("match_arms", 3, "aggregate"), ("array_ops", 3, "aggregate"),
+    ("print_aggregate", 2, "aggregate"),
+    ("shadow_body", 1, "shadow"),
 ]
+FAMILIES = sorted(set(f for _, _, f in MUTATORS))
 
 
 def mutate(prog, rng):
-    """-> (kind, mutated Program) or None.  One mutation, sometimes two."""
+    """-> (kind, family, mutated Program) or None.  Exactly one mutation (a key names the family of the mutation)."""
     p = mutable_program(prog)
-    names = [n for n, w in MUTATORS]
-    weights = [w for n, w in MUTATORS]
-    kinds = []
-    for _ in range(2 if rng.random() < 0.15 else 1):
-        for _try in range(6):
-            name = rng.choices(names, weights)[0]
-            try:
-                k = getattr(M(p, rng), name)()
-            except (IndexError, KeyError, TypeError, ValueError, AttributeError):
-                k = None
-            if k:
-                kinds.append(k)
-                break
-    if not kinds:
-        return None
-    return "+".join(kinds), p
+    names = [m[0] for m in MUTATORS]
+    weights = [m[1] for m in MUTATORS]
+    fam = dict((m[0], m[2]) for m in MUTATORS)
+    for _try in range(6):
+        name = rng.choices(names, weights)[0]
+        try:
+            k = getattr(M(p, rng), name)()
+        except (IndexError, KeyError, TypeError, ValueError, AttributeError):
+            # a mutator that gave up half way may have touched the program: start from a fresh copy
+            p = mutable_program(prog)
+            k = None
+        if k:
+            return k, fam[name], p
+    return None
 
 
 # ======================================================================================================================
@@ -1541,7 +1562,11 @@ def run(ctx):
                 labs.append("%s=%s" % (side, o.label()))
                 count("cell:%s:%s" % (side, o.cls))
                 if o.cls == "stuck":
-                    if name.startswith("census/") or name.startswith("c04/cell_"):
+                    wfam = name[4:].split("-")[0] if name.startswith("c04/") and "-" in name else None
+                    if wfam in FAMILIES:
+                        # the witness of a mutant key: its file name starts with the family of the mutation that produced it
+                        o.key = o.make_key(wfam)
+                    elif name.startswith("census/") or name.startswith("c04/cell_"):
                         # a hand-written cell is a named construct: it is listed on its own, not under the message it shares
                         # with other causes (witnesses of mutant keys, the other files of findings/C04, keep the plain key)
                         o.key = "cell|%s|%s|%s" % (name.split("/", 1)[1].replace("cell_", "", 1) if name.startswith("c04/") else name, o.stage, o.detail)
@@ -1612,7 +1637,8 @@ def run(ctx):
                 res = mutate(prog, ctx.rng("mut", i, j))
                 if res is None:
                     continue
-                kind, mp = res
+                kind, family, mp = res
+                kind = family + "/" + kind
                 try:
                     files = files_of(mp)
                 except (ValueError, TypeError, IndexError, KeyError):
@@ -1640,7 +1666,9 @@ def run(ctx):
         kinds_seen = {}
         n_rejected = 0
         for (i, mi, kind, mp, files), v in vm_res:
-            k0 = kind.split("+")[0]
+            k0 = kind
+            if v.cls == "stuck":
+                v.key = v.make_key(kind.split("/")[0])
             ks = kinds_seen.setdefault(k0, [0, 0])
             ks[0] += 1
             if v.cls == "watchdog":
@@ -1660,7 +1688,7 @@ def run(ctx):
         # native side: a kind-balanced sample of the mutants the checker accepted
         by_kind = {}
         for a in accepted:
-            by_kind.setdefault(a[2].split("+")[0], []).append(a)
+            by_kind.setdefault(a[2], []).append(a)
         order = []
         rr = ctx.rng("native-sample")
         pools = [by_kind[k] for k in sorted(by_kind)]
@@ -1684,7 +1712,9 @@ def run(ctx):
 
         n_native_accepted = 0
         for (i, mi, kind, mp, files, v), n in pmap(do_mut_native, order):
-            k0 = kind.split("+")[0]
+            k0 = kind
+            if n.cls == "stuck":
+                n.key = n.make_key(kind.split("/")[0])
             if n.cls == "watchdog":
                 watchdogs[0] += 1
             if n.cls == "rejected":
@@ -1775,15 +1805,15 @@ SHRINK_MAX = int(os.environ.get("NLV_C04_SHRINK_MAX", "6"))
 SHRINK_BUDGET = int(os.environ.get("NLV_C04_SHRINK_BUDGET", "50"))
 
 
-def _key_of(plain, d, files, side):
+def _key_of(plain, d, files, side, family=None):
     engines.write_files(d, files)
     v, _ = classify_vm(plain, d)
     if side == "vm":
-        return v.key
+        return v.make_key(family) if v.cls == "stuck" else None
     if v.cls == "rejected":
         return None
     n, _, _ = classify_native(plain, d, v)
-    return n.key
+    return n.make_key(family) if n.cls == "stuck" else None
 
 
 def _shrink_mutant(plain, sc, oc, side, mi, kind, mp, files):
@@ -1791,7 +1821,7 @@ def _shrink_mutant(plain, sc, oc, side, mi, kind, mp, files):
 
     def same(c):
         cnt[0] += 1
-        return _key_of(plain, sc.sub("shrink%d_%d" % (mi, cnt[0] % 4)), files_of(c), side) == oc.key
+        return _key_of(plain, sc.sub("shrink%d_%d" % (mi, cnt[0] % 4)), files_of(c), side, kind.split("/")[0]) == oc.key
     try:
         small = shrink(mp, same, budget=SHRINK_BUDGET if side == "vm" else SHRINK_BUDGET * 2 // 3)
         return {"reduced/" + k: t for k, t in files_of(small).items()}
